@@ -177,6 +177,20 @@ type RunInfo struct {
 
 // WriteEvidence writes /verif/evidence/<id>.json per EVIDENCE.schema.json (level "other").
 func WriteEvidence(dir string, r *Report, ri RunInfo, violations, knownHits int) string {
+	if r.Assumptions == nil {
+		r.Assumptions = []string{}
+	}
+	if r.Tables == nil {
+		r.Tables = []string{}
+	}
+	if r.NotCovered == nil {
+		r.NotCovered = []string{}
+	}
+	if r.Notes == nil {
+		r.Notes = []string{}
+	}
+	r.Assumptions = append(r.Assumptions, "the rules decide the structural S-clauses only; a tree on which every check passes can still violate the behavioural B-clauses listed under not_covered",
+		"no points-to analysis: object identity is by SSA value + access path; two loads of one location inside a function are taken to see the same value")
 	obls := r.Sorted()
 	total, dis, nontriv := len(obls), 0, 0
 	distinct := map[string]bool{}
